@@ -1062,6 +1062,27 @@ pub fn c08(tier: Tier) -> i32 {
             }
         }
     }
+    // type axis of the "always suggests" halves: every elementary type, never written / assigned in the constructor from a
+    // parameter, a literal-like value, a conversion; with a second variable of another type beside it; alone in its contract
+    for tyname in ["uint256", "uint8", "uint", "int256", "int8", "int", "bool", "address", "address payable", "bytes1", "bytes4", "bytes32", "string", "bytes"] {
+        let conv = if tyname == "address payable" { "payable" } else { tyname };
+        for (fnm, decl) in [
+            ("unwritten", format!("{} s0 ;", tyname)),
+            ("unwritten.public", format!("{} public s0 ;", tyname)),
+            ("ctor.param", format!("{} s0 ; constructor ( {} {} k ) {{ s0 = k ; }}", tyname, tyname, if tyname == "string" || tyname == "bytes" { "memory" } else { "" })),
+            ("ctor.member", format!("{} public s0 ; constructor ( ) {{ s0 = cfg . value ; }}", tyname)),
+            ("ctor.conversion", format!("{} private s0 ; constructor ( uint160 seed ) {{ s0 = {} ( seed ) ; }}", tyname, conv)),
+            ("ctor.beside", format!("uint256 other0 ; {} s0 ; bool flag0 ; constructor ( ) {{ other0 = 1 ; s0 = initial ( ) ; flag0 = true ; }}", tyname)),
+        ] {
+            for hk in &holder_kinds {
+                let mut alone = toks_of("pragma solidity 0.8.19 ;");
+                alone.extend(toks_of(hk));
+                alone.extend(toks_of(&decl));
+                alone.push("}".into());
+                items.push(l1_item(format!("types:{}:{}:{}", tyname, fnm, hk), &alone));
+            }
+        }
+    }
     // another contract with a constructor of its own (and no write to s0) before / after the holder
     for (hn, decl) in &holders {
         let d = toks_of(decl);
